@@ -198,3 +198,12 @@ func VerifBreakSinkStateFile(s SnapshotSink) bool {
 	}
 	return fs.stateFile.Close() == nil
 }
+
+// VerifRunCandidate runs one pass of the candidate loop on the calling
+// goroutine (it returns when the state changes or the election times out).
+func (r *Raft) VerifRunCandidate() { r.runCandidate() }
+
+// VerifCandidateFromLeadershipTransfer reports the leadership-transfer flag.
+func (r *Raft) VerifCandidateFromLeadershipTransfer() bool {
+	return r.candidateFromLeadershipTransfer.Load()
+}
